@@ -16,7 +16,6 @@ package main
 
 import (
 	"bytes"
-	"context"
 	"fmt"
 	"io"
 	"math/rand"
@@ -69,6 +68,8 @@ type hit struct {
 	Hook    string
 	N       int
 	Outcome string
+	At      time.Duration // since the endpoint was created
+	From    string
 }
 
 type endpoint struct {
@@ -78,6 +79,9 @@ type endpoint struct {
 	srv     *http.Server
 	scripts map[string][]string
 	log     []hit
+	t0      time.Time
+	closing  bool
+	inflight int
 }
 
 var nRe = regexp.MustCompile(`"fields":\{"n":(\d+)\}`)
@@ -96,18 +100,34 @@ func (e *endpoint) handler(w http.ResponseWriter, req *http.Request) {
 	hook := strings.TrimPrefix(req.URL.Path, "/")
 	e.mu.Lock()
 	out := "ok"
-	if s := e.scripts[hook]; len(s) > 0 {
+	if e.closing {
+		out = "down" // the listener is going away: this request is not accepted
+	} else if s := e.scripts[hook]; len(s) > 0 {
 		out = s[0]
 		e.scripts[hook] = s[1:]
 	}
-	e.log = append(e.log, hit{hook, msgN(body), out})
+	e.log = append(e.log, hit{hook, msgN(body), out, time.Since(e.t0), req.RemoteAddr})
+	if out == "ok" {
+		e.inflight++
+	}
 	e.mu.Unlock()
+	if os.Getenv("C10_DEBUG") != "" {
+		fmt.Fprintf(os.Stderr, "hit %s n=%d %s at=%v from=%s\n", hook, msgN(body), out, time.Since(e.t0), req.RemoteAddr)
+	}
 	switch out {
 	case "ok":
+		// a complete response is on the wire before the request stops counting as in flight
+		w.Header().Set("Content-Length", "0")
 		w.WriteHeader(200)
+		if f, ok := w.(http.Flusher); ok {
+			f.Flush()
+		}
+		e.mu.Lock()
+		e.inflight--
+		e.mu.Unlock()
 	case "500":
 		w.WriteHeader(500)
-	case "hang", "reset":
+	case "hang", "reset", "down":
 		hj, ok := w.(http.Hijacker)
 		if !ok {
 			w.WriteHeader(500)
@@ -119,7 +139,7 @@ func (e *endpoint) handler(w http.ResponseWriter, req *http.Request) {
 		}
 		if out == "hang" {
 			time.Sleep(120 * time.Millisecond)
-		} else if tc, ok := c.(*net.TCPConn); ok {
+		} else if tc, ok := c.(*net.TCPConn); ok && out == "reset" {
 			tc.SetLinger(0)
 		}
 		c.Close()
@@ -145,23 +165,35 @@ func (e *endpoint) up() error {
 	}
 	e.addr = ln.Addr().String()
 	e.ln = ln
+	e.mu.Lock()
+	e.closing = false
+	e.mu.Unlock()
 	e.srv = &http.Server{Handler: http.HandlerFunc(e.handler)}
 	go e.srv.Serve(ln)
 	return nil
 }
 
-// down stops the endpoint gracefully: the listener is closed, requests in flight are answered
-// completely (a request logged as 200 whose reply is cut off would be "delivered but reported as
-// failed", which is outside the property), idle keep-alive connections are closed.
+// down closes the listener and every connection.  Requests already accepted with 200 are answered
+// completely first (a request logged as 200 whose reply is cut off would be "delivered but
+// reported as failed", which is outside the property); requests arriving meanwhile are refused.
 func (e *endpoint) down() {
-	if e.srv != nil {
-		ctx, cancel := context.WithTimeout(context.Background(), 3*time.Second)
-		if err := e.srv.Shutdown(ctx); err != nil {
-			e.srv.Close()
-		}
-		cancel()
-		e.srv = nil
+	if e.srv == nil {
+		return
 	}
+	e.mu.Lock()
+	e.closing = true
+	e.mu.Unlock()
+	for i := 0; i < 3000; i++ {
+		e.mu.Lock()
+		n := e.inflight
+		e.mu.Unlock()
+		if n == 0 {
+			break
+		}
+		time.Sleep(time.Millisecond)
+	}
+	e.srv.Close()
+	e.srv = nil
 }
 
 func (e *endpoint) hits(hook string) []hit {
@@ -347,6 +379,9 @@ func expectedFor(ws []write, area string) []int {
 }
 
 func (x *run) scenario(sc scen) {
+	if only := os.Getenv("C10_ONLY"); only != "" && only != sc.Name {
+		return
+	}
 	x.n++
 	r := x.r
 	rng := rand.New(rand.NewSource(sc.Seed))
@@ -360,7 +395,7 @@ func (x *run) scenario(sc scen) {
 		return
 	}
 	defer s.Kill()
-	ep := &endpoint{scripts: map[string][]string{}}
+	ep := &endpoint{scripts: map[string][]string{}, t0: time.Now()}
 	for k, v := range sc.Scripts {
 		ep.scripts[k] = append([]string{}, v...)
 	}
@@ -503,7 +538,13 @@ func (x *run) scenario(sc scen) {
 	}
 	waitDone(total / 3)
 	if sc.DownMid {
+		if os.Getenv("C10_DEBUG") != "" {
+			fmt.Fprintf(os.Stderr, "endpoint going down at %v\n", time.Since(ep.t0))
+		}
 		ep.down()
+		if os.Getenv("C10_DEBUG") != "" {
+			fmt.Fprintf(os.Stderr, "endpoint down at %v\n", time.Since(ep.t0))
+		}
 	}
 	late := []*receiver{
 		{Name: "S4 late SUBSCRIBE c501", Kind: "sub", Chans: []string{"c501"}, Late: true},
